@@ -9,6 +9,7 @@
 import VrlProofs.Lemmas.KindGet
 import VrlProofs.Lemmas.KindUnion
 import VrlProofs.Lemmas.KindSuperset
+import VrlProofs.Lemmas.KindInsert
 
 namespace C19
 open Spec
@@ -105,5 +106,46 @@ theorem mem_of_superset_kindOf (v : Value) (K : Kind) (hs : v.Sorted = true)
     (hK : K.anyUnknown Unknown.exactIsAny = false) (h : K.isSuperset v.kindOf = true) :
     mem v K = true :=
   (Spec.isSupersetF_sound _).mem K v.kindOf v hK h (Spec.mem_kindOf v hs)
+
+/-- **Insertion is sound** for every path made of field segments and non-negative indices, every
+    value/kind pair and every inserted value/kind, outside the finding classes: no array kind on the
+    path has a known index that may be absent (`D_minlen_counts_optional`) and no kind met at a
+    segment is a union containing that segment's collection state (`D_insert_union_alt`); both classes
+    are witnessed. (`insertClass … = none` implies both hypotheses; negative indices are not covered by
+    this theorem: `D_neg_insert_exact_noshift` is a witnessed defect, the unknown-length branch goes
+    through `Collection::merge`.) -/
+theorem insert_sound_partial (v : Value) (K : Kind) (p : Path) (x : Value) (X : Kind)
+    (hs : v.Sorted = true) (hp : Spec.nonNegPath p = true)
+    (h1 : anyOnPath optionalIdx K p = false) (h2 : anyOnPath unionAlt K p = false) :
+    insertLawM v K p x X = true := by
+  unfold insertLawM Value.insert
+  split
+  · rfl
+  · rename_i v' prev heq
+    split at heq
+    · cases heq
+    · cases heq
+      unfold insertLaw
+      cases hm : mem v K with
+      | false => rfl
+      | true =>
+        cases hx : mem x X with
+        | false => rfl
+        | true =>
+          have := Spec.insertRec_sound p (some v) K x X.upgradeUndefined hs hm
+            (Spec.mem_upgradeUndefined_of_mem x X hx) hp h1 h2
+          simpa [Kind.insert] using this
+
+theorem insertClass_none (K : Kind) (p : Path) (X : Kind) (h : insertClass K p X = .none) :
+    anyOnPath optionalIdx K p = false ∧ anyOnPath unionAlt K p = false := by
+  unfold insertClass at h
+  split at h
+  · cases h
+  · split at h
+    · cases h
+    · split at h
+      · cases h
+      · rename_i h1 _ h3
+        exact ⟨by simpa using h1, by simpa using h3⟩
 
 end C19
